@@ -351,7 +351,8 @@ pub fn build(kind: Kind, raw: i128, choices: &[u32], neg: u32) -> Built {
     if ch.flag(1, 10) {
         ctoks.push((Tok::Blank(1), 0));
     }
-    let mut ctoks = gen::repair(ctoks, b'/');
+    // leave room for the two tokens a picture-level perturbation appends (limit: 36 tokens)
+    let mut ctoks = gen::fit(gen::repair(ctoks, b'/'), MAX_TOKENS - 3);
 
     // ---- picture-level perturbations ----------------------------------------------------
     let mut perturb = want_perturb;
